@@ -38,7 +38,9 @@
                                                  and then sorted by `_variable_sort_key`; on event keys the sorted list, hence the two
                                                  dicts the function returns, are the same for every `π` (`sortBy_perm_eq`: `Var.keyLt` is
                                                  a strict order that tells different event keys apart).  `idcstar_reassociation_order_
-                                                 independent_run`: the relabelled event of every run from `IdcInv` inputs has such keys.
+                                                 independent_run`: the relabelled event of every run from `IdcInv` inputs has such keys;
+                                                 `idcstar_order_independent`: hence the WHOLE of `idc_star` returns the same answer for
+                                                 every `π` on those inputs (induction along the line-4 recursion).
                                                  Before the fix the answer depended on PYTHONHASHSEED through this order (finding
                                                  order-dependent-verdict, now `fixed:`); the harness also runs fresh interpreters under
                                                  several hash seeds (R-clause).
@@ -294,6 +296,21 @@ theorem idcstar_reassociation_order_independent_run (hord : PermOrder ordf) (hG 
     newOutcomesAndConditions (fun l => orderDistrict false (π l)) nev outcomes conditions =
       newOutcomesAndConditions (orderDistrict false) nev outcomes conditions :=
   reassoc_order_independent_run hord hG hdl hbl outcomes conditions hinv hne hcg π hπ
+
+/-- **IDC\* as a whole does not depend on the iteration order of that set**: for every input of `idcstar_terminates_shared_names`
+(`IdcInv`: dicts of well-formed keys, none self-intervened), every well-formed loop-free graph, every iteration order of the worlds
+and the district nodes, every `π` (the order in which Python happens to iterate the set; any function returning a permutation of
+its argument) and every fuel, the model with the keys sorted AFTER `π` returns what the model with the keys sorted returns.  By
+induction along the line-4 recursion: the relabelled event of each level has pairwise different event keys (`cg_keys_keyLike`), the
+invariant is carried to the next level by `idcStarO_step`. -/
+theorem idcstar_order_independent (hord : PermOrder ordf) (hG : G.WF) (hdl : ∀ e ∈ G.di, e.1 ≠ e.2)
+    (hbl : ∀ e ∈ G.bi, e.1 ≠ e.2) (outcomes conditions : Event) (hinv : IdcInv G outcomes conditions)
+    (π : List Var → List Var) (hπ : ∀ l, (π l).Perm l) :
+    idcStar ordf dordf (fun l => orderDistrict false (π l)) G outcomes conditions =
+      idcStar ordf dordf (orderDistrict false) G outcomes conditions := by
+  unfold idcStar
+  rw [idcStarFuel_eq_idcStarO, idcStarFuel_eq_idcStarO,
+    idcStarO_order_independent hord hG hdl hbl π hπ _ outcomes conditions hinv]
 
 /-- non-vacuity: the order the set happens to be iterated in matters for an UNSORTED insertion (the code before the fix) and not
 after sorting: two re-associated keys `C_b`, `D_b` (names 2, 3; `b` = 1), reversed iteration -/
